@@ -341,6 +341,24 @@ def run(chk, repo):
     txt = {unparse(s.targets[0]): unparse(s.value) for s in kb if isinstance(s, ast.Assign)}
     for_loops = [s_ for s_ in kb if isinstance(s_, ast.For) and unparse(s_.iter) in ("xrange(1, order + 1)", "range(1, order + 1)")
                  and isinstance(s_.target, ast.Name) and s_.target.id == "m"]
+    # for m in count(1): BODY   is   m = 1 ; while True: BODY ; m += 1   (BODY neither re-binds m nor continues)
+    count_loops = [s_ for s_ in kb if isinstance(s_, ast.For) and isinstance(s_.iter, ast.Call)
+                   and canon_call(repo.mod(LL), s_.iter) in ("itertools.count", "count") and [unparse(a_) for a_ in s_.iter.args] == ["1"]
+                   and isinstance(s_.target, ast.Name) and s_.target.id == "m" and not s_.orelse
+                   and not any(isinstance(n_, ast.Continue) for n_ in ast.walk(s_))
+                   and not any(isinstance(n_, ast.Name) and n_.id == "m" and isinstance(n_.ctx, ast.Store)
+                               for b_ in s_.body for n_ in ast.walk(b_))]
+    if len(count_loops) == 1 and "m" not in txt:
+        cl_ = count_loops[0]
+        inc_ = ast.parse("m += 1").body[0]
+        synth_ = ast.While(test=ast.Constant(value=True), body=list(cl_.body) + [inc_], orelse=[])
+        ast.copy_location(synth_, cl_)
+        ast.fix_missing_locations(synth_)
+        for n_ in ast.walk(synth_):
+            if not hasattr(n_, "lineno"):
+                n_.lineno = cl_.lineno
+        kb = [synth_ if s_ is cl_ else s_ for s_ in kb]
+        txt["m"] = "1"
     ok = txt.get("phi") == "lag_matrix(blk, order)" and txt.get("order") == "len(phi) - 1" and txt.get("A") == "ZFilter(1)" \
         and txt.get("B") == "[z ** (-1)]" and txt.get("beta") == "[inner(B[0], B[0])]" \
         and (txt.get("m") == "1" or (len(for_loops) == 1 and "m" not in txt))
@@ -446,8 +464,15 @@ def run(chk, repo):
                    why="gamma_q = <z^-(m+1), B[q]> / beta[q] for q < m", node=wl[0])
         ba = [s for s in stmts if isinstance(s, ast.Expr) and isinstance(s.value, ast.Call) and unparse(s.value.func) == "B.append"]
         okb = False
+        new_name = None
         if len(ba) == 1:
             e = ba[0].value.args[0]
+            if isinstance(e, ast.Name):
+                # B.append(new_B) with new_B = <the expression>, bound once in the loop body
+                defs_ = [s_ for s_ in stmts if isinstance(s_, ast.Assign) and len(s_.targets) == 1
+                         and isinstance(s_.targets[0], ast.Name) and s_.targets[0].id == e.id]
+                if len(defs_) == 1 and stmts.index(defs_[0]) < stmts.index(ba[0]):
+                    new_name, e = e.id, defs_[0].value
             okb = isinstance(e, ast.BinOp) and isinstance(e.op, ast.Sub) \
                 and Evaluator(env).ev(e.left) == sym_pow(x, m + 1) and isinstance(e.right, ast.Call) and unparse(e.right.func) == "sum"
             if okb:
@@ -462,7 +487,10 @@ def run(chk, repo):
         if len(be) == 1 and ba:
             grown["B"] = 1 if stmts.index(be[0]) > stmts.index(ba[0]) else 0
             try:
-                okbe = Evaluator(env, call_hook=hk2, attr_hook=sub2).ev(be[0].value.args[0]) == \
+                env_b = dict(env)
+                if new_name is not None and okb:
+                    env_b[new_name] = opaque("B", m)        # the value just appended is B_m
+                okbe = Evaluator(env_b, call_hook=hk2, attr_hook=sub2).ev(be[0].value.args[0]) == \
                     opaque("inner", opaque("B", m), opaque("B", m))
             finally:
                 grown["B"] = 0
